@@ -543,6 +543,27 @@ func runC17(c *mc.Ctx) {
 		}
 	}
 
+	// (F) the first conversion a process ever makes: every unit exponent x 3 amounts through
+	// ToUnit+Format, every unit through Format (String for whole coins) alone, the round trip and the
+	// float side, each as the first library call of a process of its own (mc.FreshAll)
+	{
+		var units, texts, amts, floats []any
+		for _, u := range c17Units {
+			for _, a := range []int64{123456789, 0, -1} {
+				units = append(units, c17Unit{A: a, Unit: u})
+			}
+			texts = append(texts, c17Retain{Calls: []c17Unit{{A: 2099999999999999, Unit: u}}})
+		}
+		for _, a := range []int64{123456789, 0, -c17Cap} {
+			amts = append(amts, c17Amt{A: a})
+		}
+		floats = append(floats, c17FloatCase(1.5e-8), c17FloatCase(-20999999.99999999))
+		c.Space("first conversion of a fresh process: 25 unit exponents x 3 amounts (ToUnit, Format), 25 x Format/String alone, 3 round trips, 2 floats; one process each", int64(len(units)+len(texts)+len(amts)+len(floats)))
+		c.FreshAll("unit", units)
+		c.FreshAll("retain", texts)
+		c.FreshAll("amt", amts)
+		c.FreshAll("float", floats)
+	}
 	// (0) retained texts, sequentially and first
 	{
 		n := len(c17RetainCalls)
